@@ -232,6 +232,12 @@ func verifAppend(s *storage, e *entry) {
 	verifPointS(s, "append")
 }
 
+func verifRemoveGTEBegin(s *storage, index uint64) {
+	if VerifEmit != nil {
+		verifEmitS(s, &VerifEv{K: "trunc-begin", Idx: index})
+	}
+}
+
 func verifRemoveGTE(s *storage, index uint64) {
 	if VerifEmit != nil {
 		verifEmitS(s, &VerifEv{K: "trunc", Idx: index})
